@@ -450,8 +450,20 @@ func (c Cell) CapBound() Cap {
 	for k := 0; k < 4; k++ {
 		cap = cap.AddPoint(c.Vertex(k))
 	}
-	return cap
+	// The radius is now the largest of the four *computed* distances from the
+	// axis to the normalized cell vertices. Normalization moves each of these
+	// points by up to dblEpsilon / 2 away from the exact vertex directions,
+	// a point of the cell may have been rounded by the same amount, and
+	// ContainsPoint repeats the distance computation for its argument;
+	// without any slack a point of the cell next to the farthest vertex (or
+	// that vertex itself with a length that differs from 1 in the last place)
+	// would be rejected.
+	return padCapBound(cap, cellCapBoundSlack)
 }
+
+// cellCapBoundSlack is the absolute padding (in units of dblEpsilon radians)
+// that Cell.CapBound applies; see there and padCapBound.
+const cellCapBoundSlack = 6
 
 // ContainsPoint reports whether this cell contains the given point. Note that
 // unlike Loop/Polygon, a Cell is considered to be a closed set. This means
